@@ -68,7 +68,7 @@ def variant(prog, k):
     """A semantically equivalent rewrite of the program."""
     v = copy.deepcopy(prog)
     nested = any(c['ctx'] in progs.NESTED_CTXS for c in prog['calls'])
-    rebinding = ('comp_rebinds_args', 'comp_rebinds_kwargs', 'genexp_rebinds_args', 'genexp_rebinds_kwargs', 'loop_rebinds_args', 'loop_rebinds_kwargs')      # these contexts change what the star denotes
+    rebinding = ('comp_rebinds_args', 'comp_rebinds_kwargs', 'genexp_rebinds_args', 'genexp_rebinds_kwargs', 'loop_rebinds_args', 'loop_rebinds_kwargs', 'comploop_mutates_kwargs')      # these contexts change what the star denotes
     flat = [c for c in progs.CTXS if c not in progs.NESTED_CTXS and c != 'lambda_default' and c not in rebinding]
     for i, c in enumerate(v['calls']):
         if c['ctx'] in rebinding:
